@@ -173,6 +173,36 @@ def canon(f, depth=0):
     return ("canon", tuple(dep), tuple(out))
 
 
+def canon_restrict(c, env):
+    """A canonical form with some of its leaves fixed to constants (``env``: leaf -> bool), canonical again."""
+    if not (isinstance(c, tuple) and c and c[0] == "canon"):
+        return c
+    ls, tb = c[1], c[2]
+    if not any(l in env for l in ls):
+        return c
+    keep = [l for l in ls if l not in env]
+
+    def val(assign):
+        idx = 0
+        for l in ls:
+            idx = (idx << 1) | (1 if (env[l] if l in env else assign[l]) else 0)
+        return tb[idx]
+
+    rows = {}
+    for bits in product((False, True), repeat=len(keep)):
+        rows[bits] = val(dict(zip(keep, bits)))
+    dep = []
+    for i, l in enumerate(keep):
+        if any(rows[b] != rows[b[:i] + (not b[i],) + b[i + 1:]] for b in rows):
+            dep.append(l)
+    out = []
+    for bits in product((False, True), repeat=len(dep)):
+        a = dict(zip(dep, bits))
+        full = tuple(a.get(l, False) for l in keep)
+        out.append(rows[full])
+    return ("canon", tuple(dep), tuple(out))
+
+
 def is_valid(f) -> bool:
     return all(table(f, _order(leaves(f))))
 
